@@ -475,7 +475,8 @@ Inductive op :=
 | ORevokeAll (ca p pc ch : str) (revokes : list msg)   (* send_revoke_requests (1765-1794) from delete_ca / ca_parent_remove *)
 | ORemoveCa (ca : str)                                 (* delete_ca, manager.rs:734 *)
 | OFreshCa (ca : str)                                  (* init_ca: the status store is not touched *)
-| ORestart.
+| ORestart
+| OChildMsg (pc ch : str) (m : msg).                   (* one request of a child arriving over HTTP (CaManager::rfc6492, manager.rs:997-1045) *)
 
 Definition revoke_all (st : state) (ca p pc ch : str) (revs : list msg) : state :=
   let '(st1, r1) := send_all st pc ch revs in
@@ -495,6 +496,7 @@ Definition step (st : state) (o : op) : option state :=
   | ORemoveCa ca => Some (remove_ca st ca)
   | OFreshCa _ => Some st
   | ORestart => Some (restart st)
+  | OChildMsg pc ch m => Some (deliver st pc ch m)
   end.
 
 Fixpoint run (st : state) (os : list op) : option state :=
@@ -515,6 +517,7 @@ Definition op_handles (o : op) : list str :=
   | ORemoveCa ca => [ca]
   | OFreshCa ca => [ca]
   | ORestart => []
+  | OChildMsg pc ch _ => [pc; ch]
   end.
 Definition op_valid (o : op) : bool := forallb valid_handle (op_handles o).
 
@@ -608,6 +611,7 @@ Definition touches_child (pc ch : str) (o : op) : bool :=
   | OChildSuspended ca c => str_eqb pc ca && str_eqb ch c
   | ORemoveChild ca c => str_eqb pc ca && str_eqb ch c
   | ORemoveCa ca => str_eqb pc ca
+  | OChildMsg pc' ch' _ => str_eqb pc pc' && str_eqb ch ch'
   | _ => false
   end.
 
